@@ -161,7 +161,10 @@ Provided(p) == {EntryId(p, en) : en \in Entries(p)}
 NoExt(p)    == {en.name : en \in {en \in Entries(p) : OnList(p, en.name)}}
 
 (* a LicenseRef- becomes known by being provided *)
-KnownId(p, s) == OnList(p, s) \/ (Cls(p, s) = "ref" /\ s \in Provided(p))
+(* bad iff neither on the SPDX lists nor a LicenseRef- (whether LICENSES/ provides the LicenseRef- or not: an unprovided *)
+(* one is MISSING).  Until repair 5571b9e the tool listed a used, unprovided LicenseRef- as bad too, and this definition *)
+(* had followed the tool instead of the statement (KF-C06-2).                                                          *)
+KnownId(p, s) == OnList(p, s) \/ Cls(p, s) = "ref"
 
 (* every identifier inside a compound expression counts, from every source *)
 UsedOf(p, f)  == UNION {Keys(it.tree) : it \in {it \in InfoOf(p, f) : it.kind = "lic"}}
@@ -177,8 +180,8 @@ Unused(p)     == {id \in Provided(p) : ~\E u \in Used(p) : u.key = id \/ (u.base
 (* bad iff neither on the SPDX lists nor a (provided) LicenseRef- *)
 BadUsed(p)    == {u.key : u \in {u \in Used(p) : ~KnownId(p, u.key) /\ ~KnownId(p, u.base)}}
 BadProvided(p) == {id \in Provided(p) : ~KnownId(p, id)}
-(* lenient cell: a used LicenseRef- that nobody provides is certainly missing; listing it as bad too is accepted *)
-BadLenient(p) == {u.key : u \in {u \in Used(p) : Cls(p, u.base) = "ref" /\ u.base \notin Provided(p) /\ u.key \notin Provided(p)}}
+(* (a "lenient cell" used to sit here; it accepted what the tool did and is gone) *)
+BadLenient(p) == {}
 Deprecated(p) == {id \in Provided(p) : Cls(p, id) = "dep"}
 
 NoCop(p) == {i \in Covered(p) : ~p.files[i].unreadable /\ ~\E it \in InfoOf(p, p.files[i]) : it.kind = "cop"}
@@ -191,7 +194,8 @@ ReadErr(p) == {i \in Covered(p) : p.files[i].unreadable}
 MLicenseMap(p) == {s \in DOMAIN p.cls : p.cls[s] \in {"cur", "dep", "exc"}}
                     \cup {id \in Provided(p) : Cls(p, id) = "ref"}              \* _find_licenses registers LicenseRef-
 MIdentifiers(u) == {u.key} \cup (IF u.base # u.key THEN {u.base} ELSE {})
-MBadOf(p, f)     == {u.key : u \in {u \in UsedOf(p, f) : MIdentifiers(u) \cap MLicenseMap(p) = {}}}
+MBadOf(p, f)     == {u.key : u \in {u \in UsedOf(p, f) : MIdentifiers(u) \cap MLicenseMap(p) = {}
+                                                            /\ \A x \in MIdentifiers(u) : Cls(p, x) # "ref"}}
 MMissingOf(p, f) == {u.key : u \in {u \in UsedOf(p, f) : MIdentifiers(u) \cap Provided(p) = {}}}
 MUsed(p)   == UNION {{u.key : u \in UsedOf(p, p.files[i])} : i \in Covered(p) \ ReadErr(p)}
 MUnused(p) == {lic \in Provided(p) : ~(lic \in MUsed(p) \/ (lic \o "+") \in MUsed(p))}
